@@ -9,6 +9,7 @@ import (
 	"math/rand/v2"
 	"reflect"
 	"strings"
+	"time"
 
 	"gitee.com/xuesongtao/protoc-go-valid/valid"
 )
@@ -45,7 +46,9 @@ func (g *dgen) typ(depth int) reflect.Type {
 	case depth > 0 && x < 0.37:
 		return reflect.ArrayOf(g.r.IntN(3), g.typ(depth-1))
 	case depth > 0 && x < 0.47:
-		return reflect.MapOf(pick(g.r, []reflect.Type{reflect.TypeOf(""), reflect.TypeOf(""), reflect.TypeOf(int(0)), reflect.TypeOf(uint8(0)), reflect.TypeOf(int64(0))}), g.typ(depth-1))
+		return reflect.MapOf(pick(g.r, []reflect.Type{reflect.TypeOf(""), reflect.TypeOf(""), reflect.TypeOf(int(0)), reflect.TypeOf(uint8(0)), reflect.TypeOf(int64(0)),
+			// named integer / string key types, with and without a String() method (encoding/json writes the number / the text)
+			reflect.TypeOf(time.Month(0)), reflect.TypeOf(time.Duration(0)), reflect.TypeOf(KS(""))}), g.typ(depth-1))
 	case !g.scope && x < 0.50:
 		return pick(g.r, []reflect.Type{reflect.TypeOf((*interface{})(nil)).Elem(), reflect.TypeOf((*int)(nil)), timeType, reflect.TypeOf(func() {}), reflect.TypeOf([]byte(nil)), reflect.TypeOf(map[bool]int(nil))})
 	}
